@@ -98,23 +98,24 @@ type vObs struct {
 
 // vSerKind describes one index kind for the serialisation checks.
 type vSerKind struct {
-	name    string
-	fresh   func() any // freshly constructed, same parameters, untrained
-	source  func() any // fresh and (if the kind needs it) trained
-	nvals   int        // size of the value alphabet
-	add     func(idx any, id uint32, val int) error
-	remove  func(idx any, id uint32) error
-	flush   func(idx any) error
-	observe func(idx any) []vObs
-	write   func(idx any, w io.Writer) (int64, error)
-	read    func(idx any, r io.Reader) (int64, error)
-	holds   func(idx any, id uint32) bool // private state still mentions id
-	canon   func(idx any) string
-	train   func(idx any) error // trains an untrained index (nil for kinds that need no training)
-	retrain func(idx any) error // trains again, with another set (nil for kinds that do not train)
-	hnsw    bool
-	ef      int  // hnsw: efSearch (exactness regime limit)
-	textual bool // holds a BM25 index: flushing changes scores (not ids)
+	name     string
+	fresh    func() any // freshly constructed, same parameters, untrained
+	source   func() any // fresh and (if the kind needs it) trained
+	nvals    int        // size of the value alphabet
+	add      func(idx any, id uint32, val int) error
+	remove   func(idx any, id uint32) error
+	flush    func(idx any) error
+	observe  func(idx any) []vObs
+	write    func(idx any, w io.Writer) (int64, error)
+	writeOne func(idx any, w io.Writer) error
+	read     func(idx any, r io.Reader) (int64, error)
+	holds    func(idx any, id uint32) bool // private state still mentions id
+	canon    func(idx any) string
+	train    func(idx any) error // trains an untrained index (nil for kinds that need no training)
+	retrain  func(idx any) error // trains again, with another set (nil for kinds that do not train)
+	hnsw     bool
+	ef       int  // hnsw: efSearch (exactness regime limit)
+	textual  bool // holds a BM25 index: flushing changes scores (not ids)
 }
 
 type vCountingReader struct {
@@ -595,6 +596,21 @@ func vSerHybridKind(v, t, m bool) *vSerKind {
 			}
 			return n, nil
 		},
+		// one writer for all four sections: the direct way to produce the single stream that
+		// ReadFrom expects
+		writeOne: func(idx any, w io.Writer) error {
+			var vw, tw, mw io.Writer
+			if v {
+				vw = w
+			}
+			if t {
+				tw = w
+			}
+			if m {
+				mw = w
+			}
+			return idx.(HybridSearchIndex).WriteTo(w, vw, tw, mw)
+		},
 		read: func(idx any, r io.Reader) (int64, error) { return idx.(HybridSearchIndex).ReadFrom(r) },
 		holds: func(idx any, id uint32) bool {
 			h := idx.(*hybridSearchIndex)
@@ -884,6 +900,31 @@ func (s *vSerSys) roundTrip(h []string) {
 		s.c.Violation("reload-changed-answers", "", cfgS, h, d)
 	} else {
 		s.vBackToBack(cfgS, h, buf.Bytes(), loaded)
+	}
+	if s.k.writeOne != nil {
+		// the same index written with ONE writer passed for every section
+		s.c.Evaluations++
+		cp := s.rebuild(h)
+		var one bytes.Buffer
+		if err := s.k.writeOne(cp, &one); err != nil {
+			s.c.Violation("write-error", "one-writer-for-all-sections", cfgS, h, err.Error())
+		} else {
+			r := s.k.fresh()
+			var rerr error
+			func() {
+				defer func() {
+					if p := recover(); p != nil {
+						rerr = fmt.Errorf("panic: %v", p)
+					}
+				}()
+				_, rerr = s.k.read(r, bytes.NewReader(one.Bytes()))
+			}()
+			if rerr != nil {
+				s.c.Violation("read-error", "one-writer-for-all-sections", cfgS, h, rerr.Error())
+			} else if d := vObsDiff(after, s.k.observe(r)); d != "" {
+				s.c.Violation("reload-changed-answers", "one-writer-for-all-sections", cfgS, h, d)
+			}
+		}
 	}
 	// readers that deliver their last bytes TOGETHER with io.EOF (compress/gzip - what the
 	// store's segment files are read through -, iotest.DataErrReader, HTTP bodies): the
